@@ -705,6 +705,15 @@ class IrGenerator:
 
                 conditions = [expr.result() for expr in conds]
 
+                sm_ctx = ir.StatemachineContext._singleton
+
+                if sm_ctx is not None and sm_ctx.at_start():
+                    # The branches are converted tentatively (see gen_bodies).
+                    # Add a Nop to mark the first state as used, so an await or
+                    # while statement in a branch does not take over the empty
+                    # first state before the if-else fallback is chosen.
+                    sm_ctx.first_state().code().append(ir.Nop())
+
                 for block in open_blocks:
                     new_blocks = self.apply(value, open_blocks=[block])
 
